@@ -102,7 +102,8 @@ def _mc_job(job):
     kind, name, consts, invs, workers, timeout = job
     wd = tlc.workdir(f"C13_{kind}_{name}")
     cfg = tlc.write_cfg(wd / "mc.cfg", constants=consts, invariants=invs, view="View")
-    return tlc.run(SPEC / "SwimMC.tla", cfg, label=f"C13_{kind}_{name}", timeout=timeout, workers=workers)
+    return tlc.run(SPEC / "SwimMC.tla", cfg, label=f"C13_{kind}_{name}", timeout=timeout, workers=workers,
+                   heap="4g" if kind == "mc" else "2g")
 
 
 def model_check(chk, tier, pool):
@@ -171,7 +172,7 @@ def simulate_behaviours(tier, seed, pool):
         cfg = tlc.write_cfg(wd / "sim.cfg", constants=consts)
         (wd / "beh").mkdir(exist_ok=True)
         res = tlc.run(SPEC / "SwimMC.tla", cfg, label=f"C13_{name}", workers=2, depth=400, seed=seed + 1,
-                      simulate=f"file={wd / 'beh' / 'b'},num={num}", timeout=1200)
+                      simulate=f"file={wd / 'beh' / 'b'},num={num}", timeout=1200, heap="2g")
         behs = []
         for f in sorted((wd / "beh").iterdir()):
             try:
@@ -195,7 +196,8 @@ def tour_behaviours(tier, rng_seed, pool):
     def one():
         wd = tlc.workdir("C13_tour")
         cfg = tlc.write_cfg(wd / "mc.cfg", constants=consts)
-        res = tlc.run(SPEC / "SwimMC.tla", cfg, label="C13_tour", timeout=1500, workers=2, dump_dot=wd / "g.dot")
+        res = tlc.run(SPEC / "SwimMC.tla", cfg, label="C13_tour", timeout=1500, workers=2, dump_dot=wd / "g.dot",
+                      heap="2g")
         g = tlc.parse_dot(wd / "g.dot")
         (wd / "g.dot").unlink(missing_ok=True)
         paths = list(tlc.edge_tour(g, rng=random.Random(rng_seed)))
@@ -260,9 +262,11 @@ def apply_action(w, act):
     return f"unknown action {a}"
 
 
-def replay_behaviour(states, consts, rng, horizon):
-    """Direct drive along a behaviour; state-checked.  On the first inapplicable action or differing projection
-    the rest of the execution free-runs under a seeded policy (it stays a legal execution)."""
+def replay_behaviour(states, consts, rng, horizon, strict=True):
+    """Direct drive along a behaviour.  strict: state-checked (projection of every live node compared with the
+    model state after every action); otherwise schedule replay (the behaviour's choices are applied as long
+    as they are applicable).  On the first inapplicable action / differing projection the rest of the
+    execution free-runs under a seeded policy (it stays a legal execution)."""
     cfg = cfg_of_consts(consts)
     orders = [list(s["order"]) for s in states[0]["nd"]]
     w = W.World(cfg, W.Policy(random.Random(rng.random()), sus_bias=0.5), init_orders=orders)
@@ -271,7 +275,7 @@ def replay_behaviour(states, consts, rng, horizon):
     try:
         for k, st in enumerate(states[1:], start=1):
             why = apply_action(w, st["act"])
-            if why is None:
+            if why is None and strict:
                 for i in range(1, cfg.n + 1):
                     if i in w.stopped:
                         continue
@@ -525,7 +529,8 @@ def validate_swim(traces, dev, label, pool=None, chunk_steps=60_000):
         cfg = tlc.write_cfg(wd / "trace.cfg", spec="Spec", constants={"Dev": dev_set(dev)})
         f = wd / "traces.json"
         f.write_text(json.dumps(part, separators=(",", ":")))
-        res = tlc.run(SPEC / "SwimTrace.tla", cfg, label=lab, workers=1, timeout=3000, env={"TRACE_FILE": str(f)})
+        res = tlc.run(SPEC / "SwimTrace.tla", cfg, label=lab, workers=1, timeout=3000, env={"TRACE_FILE": str(f)},
+                      heap="4g")
         f.unlink()
         out = {}
         for v in res.printed:
@@ -651,7 +656,8 @@ def run(tier, seed, replay=None):
         for states in behs:
             if len(states) < 2:
                 continue
-            w, drift, m = replay_behaviour(states, consts, rng, horizon=consts["MaxTime"])
+            w, drift, m = replay_behaviour(states, consts, rng, horizon=consts["MaxTime"],
+                                           strict=not name.startswith("cex:"))
             chk.replays += 1
             matched += m
             total += len(states) - 1
